@@ -2,15 +2,19 @@
 """tools/keep_seed.py <Cxx> <m1|m2> "<caught-by summary>"  : confirm in a scratch worktree, run the check, store under seeded/"""
 import sys, os, subprocess, json, shutil, re
 prop, m, = sys.argv[1], sys.argv[2]
-props = sys.argv[3:] or [prop]
-src = "/tmp/mut/%s.out/%s" % (prop, m)
+rest = sys.argv[3:]
+dest = m
+if "--as" in rest:
+    i = rest.index("--as"); dest = rest[i + 1]; rest = rest[:i] + rest[i + 2:]
+props = rest or [prop]
+src = "%s/%s.out/%s" % (os.environ.get("MUT_ROOT", "/tmp/mut"), prop, m)
 conf = subprocess.run(["/verif/tools/confirm_seed.sh", src], capture_output=True, text=True).stdout
 print(conf.strip())
 if "CONFIRMED" not in conf: sys.exit("not confirmed")
 res = subprocess.run(["/verif/tools/try_seed.sh", src + "/patch.diff"] + props, capture_output=True, text=True).stdout
 print(res.strip())
 caught = "VIOLATION" in res
-dst = "/verif/seeded/%s-%s" % (prop, m)
+dst = "/verif/seeded/%s-%s" % (prop, dest)
 os.makedirs(dst, exist_ok=True)
 for f in ("patch.diff", "demo.py", "notes.md"): shutil.copy(os.path.join(src, f), dst)
 notes = open(os.path.join(src, "notes.md")).read()
